@@ -837,5 +837,76 @@ theorem show_requests {fx : Fixes} (hfx2 : fx.chainRestore = true) {t t' : Tree}
           Bool.false_eq_true, if_false]
         exact finish t'' rfl rfl (chainSame_trans hcs1 (chainSame_wins hwins))
 
+
+/-! ### a geometry change with the exposes of the old and the new area (C01's proviso) -/
+
+theorem setGeometryExposed_wins {t t' : Tree} {fuel win : Nat} {r : Rect} {w : Win}
+    (h : WinFlush.setGeometryExposed t fuel win r = .ok t') (hw : Live t win w) :
+    t'.wins = t.wins ∨ t'.wins = (WinTree.set t win { w with rect := r }).wins := by
+  unfold WinFlush.setGeometryExposed at h
+  simp only [bind_ok] at h
+  obtain ⟨w0, hg, x, hx, h⟩ := h
+  have := live_unique (get_ok.mp hg) hw; subst this
+  have hx1 : x.1 = t ∨ x.1 = WinTree.set t win { w0 with rect := r } := by
+    unfold setGeometry at hx
+    simp only [bind_ok] at hx
+    obtain ⟨w1, hg1, hx⟩ := hx
+    have := live_unique (get_ok.mp hg1) hw; subst this
+    split at hx
+    · simp only [pure_ok] at hx; subst hx; exact .inr rfl
+    · simp only [pure_ok] at hx; subst hx; exact .inl rfl
+  have hwins : t'.wins = x.1.wins := by
+    obtain ⟨t1, b⟩ := x
+    simp only [] at h
+    split at h
+    · simp only [bind_ok] at h
+      obtain ⟨t2, h2, h3⟩ := h
+      obtain ⟨a1, _, _⟩ := expose_frame _ _ _ _ _ h2
+      obtain ⟨a2, _, _⟩ := expose_frame _ _ _ _ _ h3
+      exact a2.trans a1
+    · simp only [pure_ok] at h; subst h; rfl
+  rcases hx1 with hx1 | hx1
+  · exact .inl (hwins.trans (by rw [hx1]))
+  · exact .inr (hwins.trans (by rw [hx1]))
+
+/-- `restore_requested` for a geometry change of any window but the root, followed by the exposes of the old and the
+    new area in the parent. -/
+theorem move_requests {t t' : Tree} {win : Nat} {r : Rect} (hg : Good15 t) (h0 : win ≠ 0)
+    (hh : WinFlush.setGeometryExposed t (treeFuel t) win r = .ok t') (hwf' : wfB t' = true) :
+    Pending t' ∨ cursorSpec t' = cursorSpec t := by
+  obtain ⟨hinv, _, _, _, _, _, _, hflags, t1', hsb, hwins1⟩ :=
+    WinFlush.geom_step encCell (snapshot t) t t' win r hh h0 hg.wfp hg.rootWin hg.onlyRoot hg.nonempty hg.pos
+      (invC_snapshot t)
+  have hroot : (t'.wins[0]?).map rootFace = (t.wins[0]?).map rootFace := by
+    rw [hwins1]; exact core_rootFace (hsb.other 0 (fun h => h0 h.symm))
+  have hw : ∃ w, Live t win w := by
+    unfold WinFlush.setGeometryExposed at hh
+    simp only [bind_ok] at hh
+    obtain ⟨w0, hg0, _⟩ := hh
+    exact ⟨w0, get_ok.mp hg0⟩
+  obtain ⟨w, hw⟩ := hw
+  have hcs : ChainSame t t' := by
+    rcases setGeometryExposed_wins hh hw with hws | hws
+    · exact chainSame_wins hws
+    · exact chainSame_trans (chainSame_set (w' := { w with rect := r }) hw (by exact hw.2) (.inr ⟨rfl, rfl, rfl⟩))
+        (chainSame_wins hws)
+  refine requests_of_step hg hwf' hinv ?_ hroot hcs
+  rcases hflags with h | ⟨a, b, _⟩
+  · exact .inl h
+  · exact .inr ⟨a, b⟩
+
+theorem setGeometryExposed_wf {t t' : Tree} {fuel win : Nat} {r : Rect} (hwf : wfB t = true)
+    (h : WinFlush.setGeometryExposed t fuel win r = .ok t') : wfB t' = true := by
+  have hw : ∃ w, Live t win w := by
+    unfold WinFlush.setGeometryExposed at h
+    simp only [bind_ok] at h
+    obtain ⟨w0, hg0, _⟩ := h
+    exact ⟨w0, get_ok.mp hg0⟩
+  obtain ⟨w, hw⟩ := hw
+  rcases setGeometryExposed_wins h hw with hws | hws
+  · rw [wfB_wins hws]; exact hwf
+  · rw [wfB_wins hws]
+    exact wfB_set_same (w' := { w with rect := r }) hwf hw.1 rfl rfl rfl
+
 end WinFocus
 end Tickit
